@@ -6,12 +6,21 @@ from checks import spell, streams, scanner_mc
 def run(ctx):
     q = ctx.quick()
     scanner_mc.spell_mc(ctx)
-    prm = dict(kind="zeros", upto=1500 if q else 100000, rlow=[0, 1, 7, 10, 21, 80, 100, 101, 181, 999] if q else spell.RQUICK_LOW,
-               rhigh=[0, 1, 2, 21, 100] if q else spell.RQUICK_HIGH, randn=1500 if q else 100000, seed=ctx.seed % 100000)
-    spell.run_kind(ctx, "C16", "Gen_Spell", prm,
-                   "k in 0..6 zero words followed by the spelling of n in [1,10^9): every n < %d, representative groups, %d seeded numbers, in every "
-                   "variant and language, alone and in a sentence; plus 'n zero' and the lone zero; every distinct phrase is non-trivial"
-                   % (prm["upto"], prm["randn"]))
+    if q:
+        prm = dict(kind="zeros", upto=1500, rlow=[0, 1, 7, 10, 21, 80, 100, 101, 181, 999], rhigh=[0, 1, 2, 21, 100], randn=1500, seed=ctx.seed % 100000)
+        spell.run_kind(ctx, "C16", "Gen_Spell", prm,
+                       "k in 0..6 zero words followed by the spelling of n in [1,10^9): every n < %d, representative groups, %d seeded numbers, in every "
+                       "variant and language, alone and in a sentence; plus 'n zero' and the lone zero; every distinct phrase is non-trivial"
+                       % (prm["upto"], prm["randn"]))
+    else:
+        step = 25000
+        chunks = [dict(kind="zeros", langs=[l], base=0, **{"from": a}, upto=step, rlow=[], rhigh=[], randn=0, seed=ctx.seed % 100000)
+                  for l in vlib.LANGS for a in range(0, 100000, step)]
+        chunks += [dict(kind="zeros", langs=[l], base=0, **{"from": 0}, upto=0, rlow=spell.RQUICK_LOW, rhigh=[0, 1, 2, 21, 100], randn=30000,
+                        seed=ctx.seed % 100000) for l in vlib.LANGS]
+        spell.run_chunks(ctx, "C16", "Gen_Spell", chunks,
+                         "k in 0..6 zero words followed by the spelling of n: EVERY n < 10^5, representative groups and 30000 seeded numbers below 10^9 per "
+                         "language, in every variant, alone and in a sentence; plus 'n zero' and the lone zero")
     ctx.assumptions += ["numbers whose spelling falls under the recorded C01 finding (de eine Million) are kept out of this domain"]
     return vlib.finish(ctx)
 
